@@ -37,6 +37,8 @@ func classifyScanStageMsg(msg string) string {
 		return "assemble notAllowed"
 	case pre("there is no directive for the "):
 		return "assemble noDirective"
+	case msg == "JSIGHT should be the first directive":
+		return "assemble jsightNotFirst"
 	case pre("the \"") && strings.Contains(msg, "parameter is already defined for the"):
 		return "assemble paramDefined"
 	case pre("incorrect parameter"):
